@@ -731,6 +731,10 @@ def main(ctx):
                         probs.append('exact energy but overlap with the ground-state eigenspace is %.8f' % ov)
                     else:
                         hist['exact_reached'] += 1
+            probs += c13_ext.check_effh(r, scale, True, r['norm_test'] <= 1e-8 and abs(r['norm'] - 1) <= 1e-8)
+            hist['effh_probes'] = hist.get('effh_probes', 0) + int(bool(r.get('effh')))
+            if r.get('E_trunc_last') is not None:
+                hist['max_dev_E_plus_E_trunc_last'] = max(hist.get('max_dev_E_plus_E_trunc_last', 0.0), float(abs(r['E'] + r['E_trunc_last'] - Eexp) / scale))
             hist['degenerate_gs'] += deg > 1
             hist['truncated'] += r['max_trunc_err'] > 1e-14
             hist['mixer'] += opts.get('mixer') is not None
@@ -828,6 +832,9 @@ def main(ctx):
                 elif abs(ref['E_mpo'] - r['E_mpo']) > tol_pair or abs(ref['E'] - r['E']) > 10 * tol_pair:
                     probs.append('infinite: explicit_plus_hc=True gives E = %.10g, <H>/site = %.10g; the same Hamiltonian without it E = %.10g, '
                                  '<H>/site = %.10g' % (r['E'], r['E_mpo'], ref['E'], ref['E_mpo']))
+            if case.get('ext'):
+                probs += c13_ext.check_effh(r, 1.0, False)
+                hist['effh_probes'] = hist.get('effh_probes', 0) + int(bool(r.get('effh')))
             if abs(r['E_bond'] - r['E_mpo']) > 1e-8:
                 probs.append('infinite: mean bond energy %.10g differs from the MPO expectation value %.10g' % (r['E_bond'], r['E_mpo']))
             ctx.count(stream, [case.get('feature'), case['model'], case['L'], case['engine'], opts], nontrivial=True,
@@ -898,6 +905,20 @@ def main(ctx):
         'that stopped as converged (all other clauses - normalisation, canonical form, <H>/site >= exact and within 5e-3 of it, and that the '
         'canonicalisation of post_run_cleanup does not change <H>/site - apply to every run)',
     ]
+    ctx.assumptions += [
+        'C13 option strata: orthogonal_to - the states to project out are exact eigenvectors of the projected effective Hamiltonian with eigenvalue 0 '
+        '(independent of the Lanczos option E_shift); when the target level (plus E_shift, if the Lanczos solver is in use) is not negative the engine '
+        'documents that orthogonality cannot be guaranteed (warning of post_run_cleanup, docstring of KrylovBased.E_shift): for those cases only '
+        'normalisation, canonical form and the charge sector of the returned state are required, and the warning must be issued exactly when the final '
+        'energy is > -1e-8.  Overlaps with the projected-out states are required to vanish up to 1e-6 + 10 sqrt(largest truncation error of the run): '
+        'the projection acts on the local eigenproblem, the truncation afterwards is not projected',
+        'C13 option strata: diag_method ED_all is documented to leave the charge sector of the initial state; required instead: the returned state has a '
+        'definite value of every conserved charge, E >= lowest energy of that sector, and (untruncated two-site DMRG with mixer) E = lowest energy of all sectors',
+        'C13 option strata: resuming from a checkpoint (resume_data with sweeps / sweep_stats / mixer, resume_run) belongs to C18 and is not drawn here; '
+        'get_resume_data(sequential_simulations=True) -> init_env_data -> next engine, init_env() on a used engine and a second run() are drawn',
+        'C13 coverage table: a function / branch counts as reached when its first line was executed in some runner process (sys.monitoring LINE events '
+        'on the code objects of the anchored files); implicit else branches (an `if` without `else` whose condition is false) are not distinguished',
+    ]
     return ctx.finish(RULE, 'T13_schedule_covers for all L, n, bc; environment freshness proved for L <= 24 (partial) and observed on every instrumented run; '
                       'spectral clauses by exact diagonalisation')
 
@@ -910,4 +931,17 @@ RULE = ('finite chains of 3-8 sites: TFI, XXZ, spinless fermions, longer-range s
         'engine\'s own E_trunc is not used as slack) and E >= E0(sector) without slack; chi_list ramps {0: 2-4, .., K: >= full bond dimension} '
         'x N_sweeps_check 1-3 x default/explicit min_sweeps x chi_list_reactivates_mixer: run protocol (chi_max and mixer per sweep, stop) vs '
         'Model/SweepStop.v and exact ground state when the last entry does not truncate; infinite: iDMRG and VUMPS (single/two-site) on TFI and '
-        'Heisenberg vs closed-form energies, unit cells 2-4, every engine also with explicit_plus_hc=True vs the same run without it; chi_max = 1 (as chi_max, chi_list[0], and as the start of a ramp to the full bond dimension) for every engine / mixer; iDMRG without environment sweeps (N_sweeps_check = 1 or update_env = 0), unit cells 2-4, both engines x mixers, <H>/site before and after the canonical_form call of post_run_cleanup.  distinct = distinct (model, L, engine, initial state, options).')
+        'Heisenberg vs closed-form energies, unit cells 2-4, every engine also with explicit_plus_hc=True vs the same run without it; chi_max = 1 (as chi_max, chi_list[0], and as the start of a ramp to the full bond dimension) for every engine / mixer; iDMRG without environment sweeps (N_sweeps_check = 1 or update_env = 0), unit cells 2-4, both engines x mixers, <H>/site before and after the canonical_form call of post_run_cleanup.  Option-space strata (harness/c13_ext.py, every feature forced by '
+        'stratification): finite - diag_method ED_all (with / without mixer), E_tol_to_trunc / P_tol_to_trunc (None, bounds) with the documented update of '
+        'lanczos_params, max_S_err, norm_tol / norm_tol_final, mixer never disabled (decay None / 1, disable_after None: convergence with enabled mixer), '
+        'amplitude below machine precision, run ending with an active mixer (max_sweeps / shelved), mixer given as a class, chi_list with a None entry, '
+        'chi_list built by dmrg.chi_list (incl. chi_max < dchi), dmrg.run with active_sites 1 / 2, max_hours (shelve), N_sweeps_check 2-4, L = 9-10, '
+        'init_env_data for a finite chain, second run() / init_env (same or changed model) on the same engine, DMRGThreadPlusHC (Lanczos and ED), '
+        'orthogonal_to (1-2 lower states, dict form, both engines, threaded engine, non-negative levels), one-site engine + DensityMatrixMixer on Z_2 charged '
+        'tensors, documented errors; infinite - combine, start_env, init_env_data (start_env_sites 0-5, force_init_method TM / iter, data of a previous run, '
+        'incompatible psi / MPO legs, with chi_list), non-canonical initial psi, chi_list, norm_tol / norm_tol_iter / norm_tol_final, second run(), '
+        'init_env on a used engine, tolerance options, orthogonal_to error; VUMPS - L = 1, check_overlap, diagonal_gauge_frequency + cutoff, norm_tol, '
+        'lanczos_options alias, UniformMPS input, chi_list, Z_2 charges, N_sweeps_check / max_split_err / max_S_err, mixer as class, two-site on L = 1; on '
+        'every returned finite state the effective Hamiltonians (ZeroSiteH / OneSiteH / TwoSiteH x combine x move_right, threaded) are read back: '
+        '<theta|H_eff (+ adjoint)|theta> = <psi|H|psi>, to_matrix vs matvec, adjoint vs conjugate transpose.  Coverage table of the anchored code '
+        '(functions / branches executed by the runner processes) in coverage.anchored_code_coverage.  distinct = distinct (model, L, engine, initial state, options).')
